@@ -481,3 +481,7 @@ def check(src, rep, tier):
     rep.guard('C17.R2', r2_converters, src)
     rep.guard('C17.R3', r3_wrapper, src)
     rep.guard('C17.R4', r4_document, src)
+    from . import common
+    rep.need('C17.R5', 3)
+    rep.guard('C17.R5', common.check_line_primitive, src, 'C17.R5', [M + ':format_multiline', M + ':parse_multiline_as_lines', M + ':License.to_str'],
+              'a copyright or license text that contains such a character inside a line (the form feeds of the GPL texts, U+2028 from a web page) comes back with that line cut in two')
